@@ -43,7 +43,15 @@ def c02Write (s : SyncCase) (r : Rec) : Option String :=
       orElse (check (r.isRevision || strAt r.opts ["propagationPolicy"] == "Background") s!"delete of {r.resource} {r.name} without background propagation") fun _ =>
       match r.pre with
       | some p =>
-          orElse (check (controllerUID p == uid) s!"accepted delete of {r.resource} {r.name}, which the parent does not control") fun _ =>
+          -- observed as ours: in the cache snapshot, or adopted earlier in this very sync
+          let adoptedHere := s.calls.any (fun a => a.idx < r.idx && a.verb == "update" && a.ok && a.resource == r.resource && a.name == r.name &&
+              a.ns == r.ns && controllerUID a.body == uid)
+          let observedOurs := (cachedDependent s r).map controllerUID == some uid || adoptedHere
+          orElse (check (controllerUID p == uid)
+            (if observedOurs then
+               -- recorded finding F-C02-2: the precondition is the UID only, so an ownership edit made after the object was observed goes unnoticed
+               s!"[F-C02-2] accepted delete of {r.resource} {r.name}: controlled by the parent when observed, by someone else when deleted"
+             else s!"accepted delete of {r.resource} {r.name}, which the parent does not control")) fun _ =>
           check (s.composite || r.isRevision || (annotationsOf p).lookup Generated.decoratorAnnotation == some s.dcfg.name)
             s!"accepted delete of attachment {r.name} lacking the decorator's marker"
       | none => none
@@ -52,14 +60,17 @@ def c02Write (s : SyncCase) (r : Rec) : Option String :=
       | none => check (r.verb == "apply" && nControllers r.body == 1 && controllerUID r.body == uid)
                   s!"{r.verb} created {r.resource} {r.name} without a controller reference to the parent"
       | some p =>
-          if controllerUID p == uid then
+          -- a write that leaves the object exactly as it was modifies nothing
+          if (r.post.map (fun q => q.eqv p)).getD false then none
+          else if controllerUID p == uid then
             check (s.composite || r.isRevision || (annotationsOf p).lookup Generated.decoratorAnnotation == some s.dcfg.name)
               s!"accepted {r.verb} of attachment {r.name} lacking the decorator's marker"
           else if r.verb == "update" && s.composite && (controllerOf p).isNone && onlyOwnerRefsChanged p r.body
                   && controllerUID r.body == uid then
             -- the adoption edit: allowed for a matching orphan only
+            -- "matches" refers to the observed version of the orphan (DESIGN §3, how the statements are read)
             match selectorOfCase s with
-            | some sel => check (sel.matches (labelsOf p)) s!"adopted {r.resource} {r.name}, an orphan that does not match the selector"
+            | some sel => check (sel.matches (labelsOf ((cachedDependent s r).getD p))) s!"adopted {r.resource} {r.name}, an orphan that does not match the selector"
             | none => some s!"adopted {r.resource} {r.name} without a usable selector"
           else if r.verb == "apply" then
             -- recorded finding F-C02-1: server-side apply is sent for every desired name, also onto an object that was never claimed
@@ -83,7 +94,7 @@ def c04Write (s : SyncCase) (r : Rec) : Option String :=
   | some p =>
     if !onlyOwnerRefsChanged p r.body then none else
     -- an ownership edit (attempted or accepted)
-    orElse (check (refsKeptExcept p r.body uid) s!"ownership edit of {r.name} touched references that belong to others") fun _ =>
+    orElse (check (!r.ok || refsKeptExcept p r.body uid) s!"ownership edit of {r.name} touched references that belong to others") fun _ =>
     orElse (check (!r.ok || (r.post.map nControllers).getD 0 ≤ 1) s!"{r.name} ended up with two controller references") fun _ =>
     let oursBefore := (getOwnerRefs p).any (·.uid == uid)
     let oursAfter := (getOwnerRefs r.body).any (·.uid == uid)
@@ -151,6 +162,8 @@ def c06 (s : SyncCase) : Option String :=
             else setStringMapAt d ["metadata", "labels"] (some (setKey "controller-uid" (.str s.parentUID) lbl))) else desired)
       else desired.map (stampMarker s.dcfg)
     let observed := (flatHookObjects (s.hookChildren h)).map (·.2.2)
+    -- a desired child without a usable apiVersion/kind/name is filed under a group of its own by the code; not judged here
+    if desired.any (fun d => getAPIVersion d == "" || getKind d == "" || getName d == "") then none else
     let later := s.calls.filter (fun r => r.idx > h.idx && s.isDependent r && r.isWrite && !r.isRevision)
     let writesOn := fun (o : J) => later.filter (fun r => r.name == getName o && (r.ns == getNamespace o || r.ns == "") &&
         (match s.composite, s.cfg.children.find? (fun c => c.resource == r.resource), s.dcfg.attachments.find? (fun c => c.resource == r.resource) with
@@ -222,7 +235,7 @@ def oracleC10 (s : SyncCase) : Option String :=
         if s.finalizeEnabled then
           -- only after every hook of this sync answered finalized
           let answers := (s.hooks.filter (fun h => h.hook != "customize" && h.idx < r.idx))
-          check (!answers.isEmpty && answers.all (fun h => match h.hookResp with | some b => b.getBool "finalized" | none => false))
+          check (!answers.isEmpty && answers.all (fun h => match h.hookBody with | some b => b.getBool "finalized" | none => false))
             "the finalizer was removed without an answer finalized:true"
         else none
       else none)) fun _ =>
@@ -251,7 +264,7 @@ def oracleC11 (s : SyncCase) : Option String :=
     let statusWrites := s.calls.filter (fun r => s.isParentTarget r && r.idx > h.idx &&
         (r.verb == "updateStatus" || (r.verb == "update" && !s.cfg.parentHasStatus)))
     let sentGen := getGeneration (s.hookParent h)
-    let hookStatus : KVs := match h.hookResp with | some b => (b.getD "status").fields | none => []
+    let hookStatus : KVs := match h.hookBody with | some b => (b.getD "status").fields | none => []
     firstSome statusWrites (fun r =>
       orElse (check ((r.verb == "updateStatus") == s.cfg.parentHasStatus) "parent status written through the wrong endpoint") fun _ =>
       let st := r.body.getD "status"
@@ -291,9 +304,15 @@ def oracleC12 (s : SyncCase) : Option String :=
   let hard := s.calls.filter (fun r => !r.isHook && !r.ok && !benignFailure s r)
   orElse (check (hard.isEmpty || s.outcome == "error")
     s!"a request failed for a non-benign reason ({(hard.map (fun r => r.verb ++ " " ++ r.name ++ " " ++ r.reason))}) but the sync did not report an error") fun _ =>
-  let hookFail := s.hooks.filter (fun h => h.code != 200 && h.code != 429)
-  orElse (check (hookFail.isEmpty || s.outcome == "error") "a hook call failed but the sync did not report an error") fun _ =>
+  -- a hook call fails on any status other than 200 (429 is the delayed-requeue answer) or on a body that cannot be decoded
+  let undecodable := fun (h : Rec) => h.code == 200 && (match h.hookBody with
+    | none => true
+    | some b => if h.hook == "customize" then (decodeCustomizeResp b).toOption.isNone
+                else if s.composite then (decodeCompResp b).toOption.isNone else (decodeDecResp b).toOption.isNone)
+  let hookFail := s.hooks.filter (fun h => (h.code != 200 && h.code != 429) || undecodable h)
   let h429 := s.hooks.filter (fun h => h.code == 429)
+  -- parallel per-revision calls: when some fail and another answers 429, which one is reported depends on revision order
+  orElse (check (hookFail.isEmpty || !h429.isEmpty || s.outcome == "error") "a hook call failed but the sync did not report an error") fun _ =>
   if !h429.isEmpty && hookFail.isEmpty && hard.isEmpty then
     if s.composite then check (s.outcome == "ok" && !s.after.isEmpty) "a 429 from the hook was not turned into a delayed requeue"
     else check (s.outcome == "error") "decorator: a 429 from the hook must be reported as an error"
@@ -309,8 +328,8 @@ def oracleC13 (s : SyncCase) : Option String :=
   | some h =>
     -- "rejected": the sync reports an error and no parent status / children phase evidence exists
     let childWrites := s.calls.filter (fun r => r.idx > h.idx && s.isDependent r && r.isWrite && !r.isRevision)
-    let decodeOk := if s.composite then (match h.hookResp with | some b => (decodeCompResp b).toOption.isSome | none => false)
-                    else (match h.hookResp with | some b => (decodeDecResp b).toOption.isSome | none => false)
+    let decodeOk := if s.composite then (match h.hookBody with | some b => (decodeCompResp b).toOption.isSome | none => false)
+                    else (match h.hookBody with | some b => (decodeDecResp b).toOption.isSome | none => false)
     check (h.code != 200 || decodeOk || childWrites.isEmpty) "a hook response that cannot be decoded was followed by child writes"
 
 -- ---------------------------------------------------------------------------------------------
@@ -391,7 +410,7 @@ def oracleC16 (s : SyncCase) : Option String :=
     let cached := s.hookParent h
     let fin := s.dcfg.finalizer.name
     orElse (check (s.dcfg.selMatches cached || hasFinalizer cached fin) "an object matching neither selectors nor carrying the finalizer was decorated") fun _ =>
-    match h.hookResp with
+    match h.hookBody with
     | none => none
     | some resp =>
       match decodeDecResp resp with
